@@ -469,6 +469,20 @@ func c13Run(env *c13Env, cs c13Case, vals []string) (stmts []recStmt, panicked i
 	switch cs.Entry {
 	case "qb.select":
 		orm.NewQueryBuilder().Select(id("col"), id("col2")).Get(ctx)
+	case "qb.reuse":
+		// one builder used for several queries: what an earlier, successful Build looked at says nothing about what a
+		// later Select / Where / Join / OrderBy hands over
+		cols := []string{"id", "name"}
+		qb := orm.NewQueryBuilder().Select(cols...).WhereEq("id", v(0))
+		qb.Get(ctx)
+		qb.Select(id("col"), id("col2")).Get(ctx)
+		qb2 := orm.NewQueryBuilder().Select(cols...)
+		qb2.First(ctx)
+		cols[0] = id("col") // the caller's slice edited after the first query
+		qb2.Get(ctx)
+		qb3 := orm.NewQueryBuilder().WhereEq("id", v(0)).OrderBy("id", "ASC")
+		qb3.Get(ctx)
+		qb3.Where(id("col2"), "=", v(1)).OrderBy(id("col"), "DESC").Get(ctx)
 	case "qb.where":
 		orm.NewQueryBuilder().Where(id("col"), cs.Op, v(0)).Where(id("col2"), "=", v(1)).Get(ctx)
 	case "qb.wherelist":
@@ -540,7 +554,7 @@ func c13Run(env *c13Env, cs c13Case, vals []string) (stmts []recStmt, panicked i
 	return
 }
 
-var c13Entries = []string{"qb.select", "qb.where", "qb.wherelist", "qb.orderby", "qb.join", "qb.first", "orm.create", "orm.update", "orm.delete", "orm.count", "orm.exists", "orm.findbyid", "orm.findall",
+var c13Entries = []string{"qb.select", "qb.reuse", "qb.where", "qb.wherelist", "qb.orderby", "qb.join", "qb.first", "orm.create", "orm.update", "orm.delete", "orm.count", "orm.exists", "orm.findbyid", "orm.findall",
 	"th.get", "th.create", "th.update", "th.delete", "th.count", "th.countwhere", "th.filter", "th.exists", "th.where", "th.findwhere", "th.first", "th.last", "th.length", "th.nextid", "th.all",
 	"drv.bulkinsert", "drv.createtable", "drv.droptable", "drv.tableexists", "drv.lastinsertid"}
 
@@ -548,7 +562,7 @@ var c13Entries = []string{"qb.select", "qb.where", "qb.wherelist", "qb.orderby",
 // bound as *values* (not identifiers) by the entry point.
 func c13Slots(entry string) (idents []string, usesOp, usesDir, usesJoin, usesType bool) {
 	switch entry {
-	case "qb.select":
+	case "qb.select", "qb.reuse":
 		return []string{"table", "col", "col2"}, false, false, false, false
 	case "qb.where", "qb.wherelist":
 		return []string{"table", "col", "col2"}, true, false, false, false
@@ -847,8 +861,8 @@ func checkC13(tier string) {
 				// every supplied identifier must be present as an exactly quoted token
 				for _, sl := range slots {
 					want := string(quote) + cs.Idents[sl] + string(quote)
-					if entry == "drv.lastinsertid" {
-						continue // identifiers are validated and then bound as values / unused
+					if entry == "drv.lastinsertid" || entry == "qb.reuse" {
+						continue // identifiers are validated and then bound as values / unused; qb.reuse: several statements, each with some of the identifiers
 					}
 					found := false
 					for _, t := range toks {
